@@ -116,13 +116,20 @@ fn run_history(ops: &[TOp], case: &mut Case, allow_sleep: bool) -> Result<(), Fa
             }
             TOp::Receive(i, ttl, flush) => {
                 let i = *i as usize % recs.len();
-                let mut rr = built[i].clone();
-                rr.ttl = *ttl;
-                rr.cache_flush = *flush;
-                let mut pk = simple_dns::Packet::new_reply(0);
-                pk.answers.push(rr);
-                let bytes = ser_compressed(&pk)?;
-                let parsed = parse(&bytes)?.map_err(|e| Fail::new("c20:unparseable", format!("{:?}", e)))?;
+                // the datagram as it arrives: written by the reference encoder (what the library's own writer would
+                // have put on the wire is not this property's subject), TTL and cache-flush bit as given
+                let mut arrived = recs[i].clone();
+                arrived.ttl = *ttl;
+                arrived.cache_flush = *flush;
+                let bytes = encode_message(&APacket { id: 0, flags: 0x8400, answers: vec![arrived], ..Default::default() }, &EncOpts::compressed());
+                let parsed = match parse(&bytes) {
+                    Ok(Ok(p)) => p,
+                    _ => {
+                        // a parser that refuses a well-formed response is C02's / C10's business: the history ends here
+                        case.class("response-not-parsed:no-claim");
+                        return Ok(());
+                    }
+                };
                 // the receiving discoverer watches the record's top-level domain (local, example, com)
                 let tld = String::from_utf8_lossy(&recs[i].name.0.last().map(|l| l.0.clone()).unwrap_or_default()).to_string();
                 let service = lname(&nm(&tld)).into_owned();
